@@ -155,7 +155,8 @@ class C17(Property):
               "nch_kw": ch > 1 and W.chance("nchannels-kw", 1, 4),
               "rate": W.pick("rate", [None, None, 8000, 22050]),
               # an explicit output device (0 is a valid PortAudio index)
-              "dev": W.pick("dev", [None, None, None, 0, 5])}
+              "dev": W.pick("dev", [None, None, None, 0, 5]),
+              "extra_kw": W.chance("extra-kw", 1, 5)}
       if spec["use_global"]:
         spec["chunk_size"] = gchunk
       specs.append(spec)
@@ -182,8 +183,10 @@ class C17(Property):
       elif op == "idle":
         script.append(["idle", W.pick("idlek", [1, 3, 10, 50])])
       elif op == "record":
-        script.append(["record", {"chunk_size": W.pick("rcs", [1, 2, 4]),
-                                  "dfmt": W.pick("rfmt", ["f", "h"])}])
+        script.append(["record", {"chunk_size": W.pick("rcs", [1, 2, 4, None]),
+                                  "dfmt": W.pick("rfmt", ["f", "h", "i"]),
+                                  "rate": W.pick("rrate", [None, 8000]),
+                                  "dev": W.pick("rdev", [None, None, 0, 4])}])
       elif op == "rec_take":
         script.append(["rec_take", W.span("rn", 1, 6)])
       elif op == "rec_stop":
@@ -483,15 +486,27 @@ class C17(Property):
             kw["rate"] = spec["rate"]
           if spec.get("dev") is not None:
             kw["output_device_index"] = spec["dev"]
+          if spec.get("extra_kw"):
+            kw["start"] = True          # any other keyword goes to open()
           if not spec.get("use_global"):
             kw["chunk_size"] = spec["chunk_size"]
           ctl["players"].append(None)
           th = aio.play(make_audio(p, spec), **kw)
           ctl["players"][p] = th
         elif name == "record":
-          rec = aio.record(chunk_size=op[1]["chunk_size"],
-                           dfmt=op[1]["dfmt"])
+          rkw = {"dfmt": op[1]["dfmt"]}
+          if op[1].get("chunk_size") is not None:
+            rkw["chunk_size"] = op[1]["chunk_size"]
+          if op[1].get("rate"):
+            rkw["rate"] = op[1]["rate"]
+          if op[1].get("dev") is not None:
+            rkw["input_device_index"] = op[1]["dev"]
+          rec = aio.record(**rkw)
           ctl["rec"].append(rec)
+          ctl.setdefault("rec_specs", []).append(
+            (op[1], world.streams[-1], rec))
+          if not rec.recording:
+            outcome["rec_flag"] = "recording is False right after record()"
         elif name == "rec_take":
           if ctl["rec"] and not ctl.get("rec_stopped"):
             got = ctl["rec"][0].take(op[1])
@@ -737,7 +752,8 @@ class C17(Property):
       if dev_fmt != fmt or dev_ch != ch or not okw.get("output") or \
          okw.get("frames_per_buffer") != cs or okw.get("input") or \
          okw.get("rate") != want_rate or \
-         okw.get("output_device_index") != want_dev:
+         okw.get("output_device_index") != want_dev or \
+         bool(okw.get("start")) != bool(spec.get("extra_kw")):
         return V("framing", "device-opened-differently",
                  "player%d asked for dfmt=%r channels=%d chunk_size=%d, the "
                  "device stream was opened with %r"
@@ -797,6 +813,26 @@ class C17(Property):
       if outcome.get("writes_at_close", [nwr] * (p + 1))[p] != nwr:
         return V("device-protocol", "write-after-manager-close",
                  "player%d wrote after close() returned" % p)
+    # --- recording streams: what the input device was opened with
+    for rspec, rst, rec in ctl.get("rec_specs", []):
+      okw = rst.kwargs
+      cs = rspec.get("chunk_size") or (workload.get("gchunk") or 2048)
+      want_dev = rspec["dev"] if rspec.get("dev") is not None else \
+        (2 if workload.get("api") else None)          # fake JACK's input
+      fmtcode = {"f": 1, "i": 2, "h": 8, "b": 16, "B": 32}[rspec["dfmt"]]
+      if okw.get("format") != fmtcode or okw.get("channels") != 1 or \
+         not okw.get("input") or okw.get("output") or \
+         okw.get("frames_per_buffer") != cs or \
+         okw.get("rate") != (rspec.get("rate") or 44100) or \
+         okw.get("input_device_index") != want_dev:
+        return V("framing", "input-device-opened-differently",
+                 "record(%r) opened the input device with %r"
+                 % (rspec, dict((k, okw[k]) for k in sorted(okw))))
+      if rec.recording:
+        return V("shutdown", "recording-flag-still-true",
+                 "a RecStream still reports recording after close()")
+    if outcome.get("rec_flag"):
+      return V("framing", "recording-flag", outcome["rec_flag"])
     # --- after close returned
     for st in world.streams[:]:
       opened_before = any(k == "open" and sid == st.sid and
